@@ -44,6 +44,21 @@ C28  UnsubAll.tla is the documented semantics of Node.Unsubscribe (doc comment: 
      per-channel reference waits 5 s for them and then disconnects).  Modelling note: refusing a held subscribe needs
      the channel's subscription lock (onSubscribeErrorGen -> removeSubscription), hence LockFree in Refuse.
 
+     Third part, UnsubScale.tla + mode c28s (after seeded C28-4): the number n of matching connections of one user (all
+     in one hub connection shard) is a parameter: every matching connection is worked on for every n (quick n in
+     {8, 11, 13}, thorough up to 33), all four operations, per user and AllUsers, named and empty channel, called on A
+     and on B, judged per connection.  Signature scale:<op>:<user|allusers>:<named|emptych>:connections-untouched.
+     Seeded C28-4 (fan-out over 8 workers drops len%8 connections): exit 1, the four scale:unsubscribe:* signatures.
+     Fourth part, UnsubTick.tla + mode c28t (after seeded C28-3): tick thread (check / AddPresence lands / compensation
+     pass) racing the unsubscribe-all's per-channel delete + RemovePresence, both iteration orders arbitrary; invariant
+     NoPresenceLeft (1874 states; Compensate="first" = tick_pinned.cfg violates it).  Driver on a real node (manual
+     TimerScheduler, cl.GatePresence, OnUnsubscribe callback as the gate between two channels of the unsubscribe):
+     for as many channels as the code's two iteration orders allow the tick's add lands after the removal (runs with
+     >= 2 raced channels are required, 4 per check); monitor = NoPresenceLeft on the real presence manager.  The
+     schedules are driver-generated (the code chooses the orders), not TLC behaviours.  Signature
+     emptych:presence-readded-by-tick:<n>-channels.  Seeded C28-3: exit 1 (3 channels raced, 2 entries left).
+     /repo HEAD e7a1e325: green seeds 1-3 with all four parts.
+
 C27  Control.tla transcribes control.proto (Proto), pubSubscribe/pubUnsubscribe/pubDisconnect/pubRefresh (EncodeMap),
      handleControl (DecodeMap) and an abstract effect of an option set (hub selection + Client.Subscribe/subscribeCmd,
      Unsubscribe, Disconnect, Refresh); it STATES Lost(subscribe) = {RecoveryMode, AutoCacheRecover, HistoryMetaTTL,
@@ -159,8 +174,22 @@ def c28(c):
     c.absorb(res2)
     c.log('phases: replayed %d behaviours, %d completed, %d unsubscribe-all calls judged, %d of them arrived while a subscribe was in flight' % (
         res2['executed'], res2['completed'], res2['counters'].get('judged_calls', 0), res2['counters'].get('waited_calls', 0)))
-    c.cov['traces_validated_against_impl'] = res['completed'] + res2['completed']
-    c.cov['evaluations'] = res['executed'] + res2['executed']
+    # third part: the number of matching connections as a parameter, spec/Cluster/UnsubScale.tla
+    r3 = c.tlc_exhaustive('Cluster', 'UnsubScale', 'scale_quick.cfg' if quick else 'scale_thorough.cfg', workers=2, dump=True, timeout=1200)
+    srows = [w['row'] for w in c.dump_states(r3)]
+    srows.sort(key=lambda w: (w['n'], w['op'], w['path'], w['emptych']))
+    res3 = c.harness(binp, 'c28s', {'rows': srows, 'workers': 4}, timeout=2400)
+    c.absorb(res3)
+    c.log('scale: %d rows (operation x targeting x channel x number of matching connections %s), each on A and on B: %d complete' % (
+        len(srows), sorted({w['n'] for w in srows}), res3['completed']))
+    # fourth part: the unsubscribe-all overlapping a presence tick, spec/Cluster/UnsubTick.tla
+    r4 = c.tlc_exhaustive('Cluster', 'UnsubTick', 'tick_quick.cfg', workers=2, timeout=1200)
+    res4 = c.harness(binp, 'c28t', {}, timeout=1200)
+    c.absorb(res4)
+    c.log('presence tick: UnsubTick %d states; %d overlapping runs on a real node, raced channels per run: %s' % (
+        r4['distinct'], res4['executed'], {k: v for k, v in res4['counters'].items() if k.startswith('raced_')}))
+    c.cov['traces_validated_against_impl'] = res['completed'] + res2['completed'] + res3['completed'] + res4['completed']
+    c.cov['evaluations'] = res['executed'] + res2['executed'] + 2 * res3['executed']
     c.cov['distinct_nontrivial'] = res['nontrivial'] + res2['nontrivial']
     c.cov['samples'] = (res['samples'] or []) + (res2['samples'] or [])[:1]
     c.cov['rule'] = ('behaviours of UnsubAllSim.tla (TLC -simulate): Subscribe / NodeUnsubscribe steps on four connections over two real nodes; '
